@@ -298,6 +298,12 @@ func init() {
 				if bound <= sc.child() || bound > sc.child()+12 || bound >= w.net.HardforkV2.RequireHeight {
 					continue
 				}
+				// drawn networks may order their hardforks unlike any real one: a
+				// boundary that lies at or above a later era's start changes nothing
+				// (the later era's prefix is already in force)
+				if (b.name == "asic" && (b.h >= w.net.HardforkFoundation.Height || b.h >= w.net.HardforkV2.AllowHeight)) || (b.name == "foundation" && b.h >= w.net.HardforkV2.AllowHeight) {
+					continue
+				}
 				var id types.SiacoinOutputID
 				found := false
 				for _, e := range sc.ownedSC(true, true) {
